@@ -36,11 +36,11 @@ Section Preserve.
     - destruct (lookup t p) as [[n k s d ff|n ch df]|]; [| |exact H].
       + pose proof (P_hf p (File n k s d ff) false st H) as H'.
         destruct (handle_file c p (File n k s d ff) false st) as [st' [| |a]|st' pc]; cbn [wres_state] in *; try exact H'; apply IH; exact H'.
-      + destruct (if c_gitignore c then match parse_parent_gitignores t p with Some ms => Some (set_stack st ms) | None => None end else Some st)
+      + destruct (if c_gitignore c then match parse_parent_gitignores t p with Some ms => Some (set_stack st ms) | None => if c_fatal c then None else Some (set_stack st []) end else Some st)
           as [st0|] eqn:E0; [|exact H].
         assert (H0 : P st0).
         { destruct (c_gitignore c); [|inversion E0; subst; exact H].
-          destruct (parse_parent_gitignores t p); inversion E0; subst. apply P_stack. exact H. }
+          destruct (parse_parent_gitignores t p); [|destruct (c_fatal c)]; inversion E0; subst; apply P_stack; exact H. }
         pose proof (walk_dir_unsorted_P t p st0 H0) as H'.
         destruct (walk_dir_unsorted c t p st0) as [st' [| |a]|st' pc]; cbn [wres_state] in *; try exact H';
           try (apply P_stack; exact H'); apply IH; apply P_stack; exact H'.
@@ -130,7 +130,7 @@ Proof.
   - destruct (lookup t p) as [[n k s d ff|n ch df]|]; [| |discriminate].
     + destruct (handle_file c p (File n k s d ff) false st) as [st1 [| |a]|st1 pc1] eqn:E; try apply IH; [discriminate|].
       intros H; inversion H; subst. eapply handle_file_no_slice. exact E.
-    + destruct (if c_gitignore c then match parse_parent_gitignores t p with Some ms => Some (set_stack st ms) | None => None end else Some st)
+    + destruct (if c_gitignore c then match parse_parent_gitignores t p with Some ms => Some (set_stack st ms) | None => if c_fatal c then None else Some (set_stack st []) end else Some st)
         as [st0|]; [|discriminate].
       destruct (walk_dir_unsorted c t p st0) as [st1 [| |a]|st1 pc1] eqn:E; try apply IH; [discriminate|].
       intros H; inversion H; subst. eapply walk_dir_unsorted_panic. exact E.
